@@ -397,13 +397,26 @@ Fixpoint char_name_loop (fuel : nat) (scratch : bytes) : M bytes :=
       end
   end.
 
+(* open_ended_char: the value of an escape with an arbitrary number of digits;
+   a surrogate at the end of input may still grow into a scalar value *)
+Definition is_surrogate (n : N) : bool := (55296 <=? n) && (n <=? 57343).
+Definition open_ended_char (n : N) : M N :=
+  if is_scalar n then ret n
+  else if is_surrogate n then
+    o <- peek ;;
+    match o with
+    | None => error EofWhileParsingCharacterConstant
+    | Some _ => error InvalidUnicodeCodePoint
+    end
+  else error InvalidUnicodeCodePoint.
+
 (* parse_r6rs_char *)
 Definition parse_r6rs_char (fuel : nat) : M N :=
   initial <- next_or_eof_char ;;
   if initial =? 120 then
     o <- r6rs_char_hex_loop fuel 0 true ;;
     match o with
-    | Some n => if is_scalar n then ret n else error InvalidUnicodeCodePoint
+    | Some n => open_ended_char n
     | None => ret 120
     end
   else if 127 <? initial then decode_utf8_sequence initial
@@ -466,8 +479,8 @@ Definition decode_elisp_char_escape (fuel : nat) : M N :=
               else if is_scalar n then ret n else error InvalidEscape))))
   else if ch =? 117 then n <- decode_elisp_uni_escape 4 0 ;; as_char n
   else if ch =? 85 then n <- decode_elisp_uni_escape 8 0 ;; as_char n
-  else if ch =? 120 then n <- decode_elisp_hex_escape fuel ;; as_char n
-  else if in_range 48 55 ch then n <- decode_elisp_octal_escape fuel ch ;; as_char n
+  else if ch =? 120 then n <- decode_elisp_hex_escape fuel ;; open_ended_char n
+  else if in_range 48 55 ch then n <- decode_elisp_octal_escape fuel ch ;; open_ended_char n
   else if 127 <? ch then decode_utf8_sequence ch
   else ret ch.
 
